@@ -65,7 +65,7 @@ def register_conf(add0, CONF):
     api('bn_lsh', SHIFT, 'bn_st *c, *a; uint_t bits;', 'bn_lsh(c, a, bits)', S2, ['bn_grow', 'dv_lshd', 'dv_copy', 'bn_lshb_low', 'bn_trim'])
     api('bn_rsh', SHIFT, 'bn_st *c, *a; uint_t bits;', 'bn_rsh(c, a, bits)', S2, ['bn_grow', 'dv_rshd', 'dv_copy', 'bn_rshb_low', 'bn_trim'])
 
-    api('bn_mod_2b', 'src/bn/relic_bn_mod.c', D2[:-1] + '; int b;', 'bn_mod_2b(c, a, b)', S2, ['bn_zero', 'bn_copy', 'bn_trim'], props=('C09', 'C08'))
+    api('bn_mod_2b', 'src/bn/relic_bn_mod.c', D2[:-1] + '; int b;', 'bn_mod_2b(c, a, b)', S2, ['bn_zero', 'bn_copy', 'bn_trim', 'bn_grow', 'dv_copy', 'dv_zero'], props=('C09', 'C08'))
     # multiplication with the digit product abstract (contracts/bn_mul.h)
     MULC = 'src/bn/relic_bn_mul.c'
     for sh, mac in S2:
